@@ -65,6 +65,15 @@ pub fn c09(log: &mut Log, seed: u64, tier: &str) {
             }
         }
     }
+    // "any builder": one that has rejected calls (duplicates, smaller keys, prefixes) in between
+    for (i, (name, keys)) in ins.iter().filter(|(_, k)| k.len() <= 200 && k.len() >= 2).take(if thorough(tier) { 90 } else { 30 }).enumerate() {
+        let set = i % 3 == 2;
+        let items: Vec<Kv> = if set { keys.iter().map(|k| (k.clone(), 0)).collect() } else { assign(keys.clone(), *pick(&mut r, VAL_MODES), &mut r) };
+        match guard(|| crate::scen_build::build_via("insert_with_rejects", &items, set)) {
+            Ok(bytes) => file_ev(log, &bytes, &items, 0, -1, &format!("{} with rejected calls in between", name)),
+            Err(p) => log.ev(json!({"ev": "Panic", "in": "insert_with_rejects", "msg": p, "origin": name})),
+        }
+    }
     // "any builder": sets whose keys are offered more than once (a repeat is a no-op that must
     // leave no trace, not even in the key count) ...
     for (i, (name, keys)) in ins.iter().filter(|(_, k)| k.len() <= 200).take(if thorough(tier) { 60 } else { 20 }).enumerate() {
@@ -548,6 +557,31 @@ pub fn c08(log: &mut Log, seed: u64, tier: &str) {
         if bytes.len() < 3000 {
             file_ev(log, &bytes, &items, 0, nodes as i64, name);
         }
+    }
+    // (1a) very many small builds: the checksum value itself sweeps its range (a zero top byte
+    // occurs once in 256 builds), through the three kinds of builder and two ways of finishing
+    for i in 0..(if thorough(tier) { 12000usize } else { 3000 }) {
+        let key = format!("k{:05}", i);
+        let bytes = match i % 3 {
+            0 => {
+                let mut b = Builder::memory();
+                b.insert(&key, i as u64).unwrap();
+                b.into_inner().unwrap()
+            }
+            1 => {
+                let mut out = Vec::new();
+                let mut b = fst::MapBuilder::new(&mut out).unwrap();
+                b.insert(&key, (i as u64) << 20).unwrap();
+                b.finish().unwrap();
+                out
+            }
+            _ => {
+                let mut b = fst::SetBuilder::memory();
+                b.insert(&key).unwrap();
+                b.into_inner().unwrap()
+            }
+        };
+        raw_ev(log, &bytes, "built:sweep", "slice");
     }
     // (1b) ... independent of how the data was chunked while being written: the same builds through
     // sinks that accept prefixes and interrupt (every byte still reaches the sink exactly once)
